@@ -30,21 +30,33 @@ unsafe fn search_buffer_path(encoded: String, out: *mut c_char, cap: usize) -> u
   slice_search_tail(encoded, out, cap)
 }
 
-/// Runs the sliced tail of `searchlite_search` against a heap buffer of exactly
-/// CAP bytes (CBMC's pointer checks play the role of a guard page).
+const ZONE: usize = 8;
+
+/// Runs guard + tail of `searchlite_search` against a caller buffer of exactly
+/// CAP bytes that sits between two 8-byte canary zones inside one allocation, so
+/// that a small overrun is an ordinary assertion failure (and reproduces natively)
+/// while a larger one leaves the allocation and trips CBMC's pointer checks.
 fn tail_case<const L: usize, const CAP: usize>() {
   let (encoded, bytes) = response::<L>();
-  let mut buf: Vec<u8> = Vec::with_capacity(CAP);
-  let p = buf.as_mut_ptr();
-  // pre-fill so that untouched bytes are recognisable
+  let mut arena: Vec<u8> = Vec::with_capacity(CAP + 2 * ZONE);
+  let base = arena.as_mut_ptr();
   let mut i = 0;
-  while i < CAP {
-    unsafe { *p.add(i) = 0xAA };
+  while i < CAP + 2 * ZONE {
+    unsafe { *base.add(i) = 0xAA };
     i += 1;
   }
+  let p = unsafe { base.add(ZONE) };
   let ret = unsafe { search_buffer_path(encoded, p as *mut c_char, CAP) };
+  // canaries on both sides of the caller's buffer
+  let mut i = 0;
+  while i < ZONE {
+    assert!(unsafe { *base.add(i) } == 0xAA, "C26: wrote before the caller's buffer");
+    assert!(unsafe { *base.add(ZONE + CAP + i) } == 0xAA, "C26: wrote past the end of the caller's buffer");
+    i += 1;
+  }
   if CAP == 0 {
     assert!(ret == 0, "C26: capacity 0 must return 0");
+    std::mem::forget(arena);
     return;
   }
   let want = if L < CAP - 1 { L } else { CAP - 1 };
@@ -61,18 +73,18 @@ fn tail_case<const L: usize, const CAP: usize>() {
     }
     i += 1;
   }
-  std::mem::forget(buf);
+  std::mem::forget(arena);
 }
 
 //@ props: C26
 //@ tier: quick
 //@ funcs: searchlite_ffi::searchlite_search (source slice: the statements from the `out_json_buf.is_null() || buf_cap == 0` test to the end of the function)
-//@ symbolic: response = any 5 non-NUL ASCII bytes; caller buffer = a heap allocation of exactly CAP bytes for CAP in {0,1,2,5,6,7}
+//@ symbolic: response = any 5 non-NUL ASCII bytes; caller buffer = exactly CAP bytes between two 8-byte canary zones of one heap allocation, for CAP in {0,1,2,5,6,7}
 //@ bounds: response length 5, capacities 0,1,2,5,6,7 (below, at and above the response length)
-//@ oracle: no out-of-bounds access (CBMC pointer checks on an exact-size allocation); returns min(len, cap-1); buf[..ret] is a prefix of the response; buf[ret] = 0; nothing after it is written; cap 0 returns 0 and writes nothing
+//@ oracle: no write outside the caller's buffer (canary bytes intact; beyond the canaries CBMC's pointer checks); returns min(len, cap-1); buf[..ret] is a prefix of the response; buf[ret] = 0; nothing after it is written; cap 0 returns 0 and writes nothing
 //@ assumes: the slice replaces `serde_json::to_string(&res)` by an arbitrary string (the response bytes)
 #[kani::proof]
-#[kani::unwind(9)]
+#[kani::unwind(25)]
 fn c26_search_tail_bounded_copy() {
   tail_case::<5, 0>();
   tail_case::<5, 1>();
